@@ -60,6 +60,115 @@ def qualnames(tree: ast.AST) -> List[str]:
     return sorted(set(out))
 
 
+LOCALS_PATH = os.path.join(HERE, "data", "locals.json")
+_loc_cache: Optional[Dict[str, Dict[str, List[str]]]] = None
+
+
+def load_locals() -> Dict[str, Dict[str, List[str]]]:
+    global _loc_cache
+    if _loc_cache is None:
+        try:
+            with open(LOCALS_PATH) as f:
+                _loc_cache = json.load(f)
+        except OSError:
+            _loc_cache = {}
+    return _loc_cache
+
+
+def _defs_with_quals(tree: ast.AST):
+    def rec(node: ast.AST, q: List[str]):
+        for ch in ast.iter_child_nodes(node):
+            if isinstance(ch, (ast.FunctionDef, ast.AsyncFunctionDef, ast.ClassDef)):
+                if not isinstance(ch, ast.ClassDef):
+                    yield ".".join(q + [ch.name]), ch
+                yield from rec(ch, q + [ch.name])
+            else:
+                yield from rec(ch, q)
+    yield from rec(tree, [])
+
+
+def _own_scope(fn: ast.AST):
+    """nodes of the function's own scope (nested defs / lambdas / classes are not entered; comprehensions are)"""
+    todo = list(ast.iter_child_nodes(fn))
+    while todo:
+        n = todo.pop()
+        yield n
+        if not isinstance(n, (ast.FunctionDef, ast.AsyncFunctionDef, ast.Lambda, ast.ClassDef)):
+            todo.extend(ast.iter_child_nodes(n))
+
+
+def local_names(tree: ast.AST) -> Dict[str, List[str]]:
+    """per function (by qualified name; the last definition of a name wins): the names it stores"""
+    out: Dict[str, List[str]] = {}
+    for q, fn in _defs_with_quals(tree):
+        out[q] = sorted({n.id for n in _own_scope(fn) if isinstance(n, ast.Name) and isinstance(n.ctx, ast.Store)})
+    return out
+
+
+def propagate_new_aliases(tree: ast.Module, modname: str, log: List[str]) -> None:
+    """a local that the reference tree's function of the same name does not have, bound once to a plain name / attribute chain
+    that nothing in the function rebinds, and read only later in the block that binds it, is that chain: its reads are replaced
+    and the binding dropped (the counterpart, for values, of inlining helpers the reference tree does not have)"""
+    ref = load_locals().get(modname)
+    if ref is None:
+        return
+    for q, fn in list(_defs_with_quals(tree)):
+        if q not in ref:
+            continue
+        known = set(ref[q]) | {a.arg for a in fn.args.args + fn.args.kwonlyargs + fn.args.posonlyargs} | ({fn.args.vararg.arg} if fn.args.vararg else set()) | ({fn.args.kwarg.arg} if fn.args.kwarg else set())
+        changed = True
+        while changed:
+            changed = False
+            scope = list(_own_scope(fn))
+            stores: Dict[str, List[ast.Name]] = {}
+            for n in scope:
+                if isinstance(n, ast.Name) and isinstance(n.ctx, (ast.Store, ast.Del)):
+                    stores.setdefault(n.id, []).append(n)
+            stored_attrs = {ast.unparse(n) for n in scope if isinstance(n, (ast.Attribute, ast.Subscript)) and isinstance(n.ctx, (ast.Store, ast.Del))}
+            for blk_owner in [fn] + [n for n in scope if isinstance(n, ast.stmt)]:
+                for fld in ("body", "orelse", "finalbody"):
+                    blk = getattr(blk_owner, fld, None)
+                    if not (isinstance(blk, list) and blk and isinstance(blk[0], ast.stmt)) or (blk_owner is not fn and isinstance(blk_owner, (ast.FunctionDef, ast.AsyncFunctionDef, ast.ClassDef))):
+                        continue
+                    for i, a in enumerate(blk):
+                        tg = a.targets[0] if isinstance(a, ast.Assign) and len(a.targets) == 1 else (a.target if isinstance(a, ast.AnnAssign) and a.value is not None else None)
+                        if not isinstance(tg, ast.Name) or tg.id in known or tg.id.startswith("_inl") or len(stores.get(tg.id, [])) != 1:
+                            continue
+                        v = a.value
+                        chain = v
+                        while isinstance(chain, ast.Attribute):
+                            chain = chain.value
+                        if not isinstance(chain, ast.Name) or not isinstance(v, (ast.Attribute, ast.Name)) or chain.id == tg.id or chain.id in stores:
+                            continue
+                        txt = ast.unparse(v)
+                        if any(txt == sa or txt.startswith(sa + ".") or sa.startswith(txt + ".") for sa in stored_attrs):
+                            continue
+                        uses = [n for n in ast.walk(fn) if isinstance(n, ast.Name) and n.id == tg.id and isinstance(n.ctx, ast.Load)]
+                        later = {id(n) for b in blk[i + 1:] for n in ast.walk(b)}
+                        in_scope = {id(n) for n in scope}
+                        if not uses or not all(id(n) in later and id(n) in in_scope for n in uses):
+                            continue
+
+                        class P(ast.NodeTransformer):
+                            def visit_Name(self, n: ast.Name):
+                                if n.id == tg.id and isinstance(n.ctx, ast.Load):
+                                    return ast.copy_location(copy.deepcopy(v), n)
+                                return n
+                        for k in range(i + 1, len(blk)):
+                            blk[k] = P().visit(blk[k])
+                        del blk[i]
+                        if not blk:
+                            blk.append(ast.Pass())
+                        log.append(f"{modname}: new local `{tg.id}` of {q} is `{txt}`: its reads were replaced by that expression")
+                        changed = True
+                        break
+                    if changed:
+                        break
+                if changed:
+                    break
+    ast.fix_missing_locations(tree)
+
+
 class NotInlinable(Exception):
     pass
 
@@ -1427,6 +1536,7 @@ def normalize(tree: ast.Module, modname: str) -> Tuple[ast.Module, List[str]]:
     inl = Inliner(tree, modname, ref)
     try:
         out = inl.run()
+        propagate_new_aliases(out, modname, inl.log)
         # the result must still be a valid program
         import warnings
         with warnings.catch_warnings():
